@@ -1,4 +1,388 @@
-import PgFdr.Model.C10
+import PgFdr.Proofs.C10
+import Mathlib.Algebra.Order.Field.Power
+
+/-!
+# C10 — evidence ingestion keeps the best PSM per peptide; targets and decoys never mix
+
+Property text (properties.jsonl): "From any supported result file(s) the tool derives, for every
+peptide sequence with modifications and flanks stripped, the lowest PEP over all of its PSMs in all
+files (rows without a PEP ignored; FragPipe PEP = 1 - probability, Sage PEP = 10^posterior_error,
+DIA-NN decoy rows get the decoy prefix) together with that PSM's proteins - taken from the in-silico
+digest when the method remaps and from the file otherwise. A protein list containing a target loses
+its decoy entries and peptides unknown to the digest are skipped, so every reported group consists
+only of targets or only of decoys."
+
+Only property theorems live here.  The executable model is `PgFdr/Model/C10.lean`
+(`ingestFiles = ingestPairs ∘ pairUp`, run by the driver op `ingest`), helper lemmas are in
+`PgFdr/Proofs/C10.lean`; the model is tied to `parsers.evidence.parse_evidence_files` by the
+correspondence of `harness/props/C10.py`.  All theorems hold for every pair of numeric transforms
+`T` (the driver runs `exactT`), every format and every pairing of digest maps with files.
+-/
 namespace PgFdr.C10
-theorem placeholder_partial : True := trivial
+
+/-- what the driver executes is the fold over the PSM stream of the paired files -/
+theorem ingestFiles_eq (T : Transforms) (mode : Mode) (maps : List DMap) (files : List (List RawRow)) :
+    ingestFiles T mode maps files = parse (allPsms T mode (pairUp mode.remap maps files)) := rfl
+
+/-- "… that PSM's proteins - taken from the in-silico digest when the method remaps and from the
+    file otherwise. A protein list containing a target loses its decoy entries and peptides unknown
+    to the digest are skipped": the PSM stream consists exactly of the rows whose source list (digest
+    proteins of the stripped peptide when remapping, proteins of the file otherwise) is known and
+    keeps at least one protein after the decoy purge; each such row yields its format's peptide
+    spelling, its transformed score and the purged source list. -/
+theorem psm_of_row (T : Transforms) (mode : Mode) (pairs : List (DMap × List RawRow)) (x : Psm) :
+    x ∈ allPsms T mode pairs ↔
+      ∃ p ∈ pairs, ∃ r ∈ p.2,
+        (mode.remap = true →
+          digestLookup p.1 (removeMods (rowPeptide mode.format (flankOf mode.format p.2) r)) ≠ []) ∧
+        removeDecoyProteinsFromTargetPeptides
+          (sourceProteins mode.remap p.1 (rowPeptide mode.format (flankOf mode.format p.2) r)
+            (rowProteins mode.format r)) ≠ [] ∧
+        x = { modPep := rowPeptide mode.format (flankOf mode.format p.2) r,
+              score := rowScore T mode.format r,
+              prots := removeDecoyProteinsFromTargetPeptides
+                (sourceProteins mode.remap p.1 (rowPeptide mode.format (flankOf mode.format p.2) r)
+                  (rowProteins mode.format r)) } := by
+  constructor
+  · intro h
+    obtain ⟨p, hp, r, hr, hx⟩ := mem_allPsms h
+    obtain ⟨h1, h2, h3, h4, h5⟩ := rowPsm_some hx
+    refine ⟨p, hp, r, hr, ?_, ?_, ?_⟩
+    · intro hm; have := h5 hm; simpa [Psm.key, h1] using this
+    · rw [← h3]; exact h4
+    · cases x; simp only at h1 h2 h3; subst h1 h2 h3; rfl
+  · rintro ⟨p, hp, r, hr, hk, hne, rfl⟩
+    unfold allPsms
+    rw [List.mem_flatMap]
+    refine ⟨p, hp, ?_⟩
+    unfold filePsms
+    rw [List.mem_filterMap]
+    refine ⟨r, hr, ?_⟩
+    unfold rowPsm mapProteins
+    have hc : ¬ (mode.remap = true ∧
+        (sourceProteins mode.remap p.1 (rowPeptide mode.format (flankOf mode.format p.2) r)
+          (rowProteins mode.format r)).isEmpty = true) := by
+      rintro ⟨hm, he⟩
+      apply hk hm
+      simpa [sourceProteins, hm, List.isEmpty_iff] using he
+    rw [if_neg hc]
+    have he : ¬ (removeDecoyProteinsFromTargetPeptides
+        (sourceProteins mode.remap p.1 (rowPeptide mode.format (flankOf mode.format p.2) r)
+          (rowProteins mode.format r))).isEmpty = true := by
+      simpa [List.isEmpty_iff] using hne
+    simp only [he]
+    rfl
+
+/-- "for every peptide sequence with modifications and flanks stripped, the lowest PEP over all of
+    its PSMs in all files (rows without a PEP ignored …) together with that PSM's proteins":
+    a stripped peptide `q` is absent iff none of its PSMs carries a PEP; otherwise its entry holds
+    the score and the proteins of one PSM `x` of `q`, every earlier PSM of `q` scores strictly
+    higher and every later one at least as high — i.e. the minimum, and the proteins of the *first*
+    PSM attaining it. -/
+theorem best_psm (T : Transforms) (mode : Mode) (pairs : List (DMap × List RawRow)) (q : String) :
+    match get (ingestPairs T mode pairs) q with
+    | none => ∀ x ∈ allPsms T mode pairs, x.key = q → x.score = none
+    | some e =>
+      e.peptide = q ∧ ∃ pre x post, allPsms T mode pairs = pre ++ x :: post ∧ x.key = q ∧
+        x.score = some e.pep ∧ x.prots = e.proteins ∧
+        (∀ y ∈ pre, y.key = q → ∀ s, y.score = some s → e.pep < s) ∧
+        (∀ y ∈ post, y.key = q → ∀ s, y.score = some s → e.pep ≤ s) := by
+  unfold ingestPairs
+  rw [get_parse]
+  exact fold_spec q (allPsms T mode pairs)
+
+/-- the stored score is the minimum of the scores of the peptide's PSMs that carry a PEP -/
+theorem best_psm_score (T : Transforms) (mode : Mode) (pairs : List (DMap × List RawRow)) (q : String) :
+    match get (ingestPairs T mode pairs) q with
+    | none => scoresOf q (allPsms T mode pairs) = []
+    | some e => e.pep ∈ scoresOf q (allPsms T mode pairs) ∧
+        ∀ s ∈ scoresOf q (allPsms T mode pairs), e.pep ≤ s := by
+  have h := best_psm T mode pairs q
+  cases hg : get (ingestPairs T mode pairs) q with
+  | none => rw [hg] at h; exact noScore_scoresOf h
+  | some e => rw [hg] at h; exact firstBest_min h
+
+/-- the result is a dict: one entry per peptide, every entry is what `get` returns for its key -/
+theorem result_keys_unique (T : Transforms) (mode : Mode) (pairs : List (DMap × List RawRow)) :
+    ((ingestPairs T mode pairs).map (·.peptide)).Nodup ∧
+    ∀ e ∈ ingestPairs T mode pairs, get (ingestPairs T mode pairs) e.peptide = some e :=
+  ⟨keys_nodup_parse _, fun _ he => get_of_mem_nodup (keys_nodup_parse _) he⟩
+
+/-- dict order of the result (what the next stage iterates over): the stripped peptides in the order
+    of their first PSM that carries a PEP -/
+theorem result_order (T : Transforms) (mode : Mode) (pairs : List (DMap × List RawRow)) :
+    (ingestPairs T mode pairs).map (·.peptide) =
+      dedupFirst (((allPsms T mode pairs).filter (fun x => x.score.isSome)).map Psm.key) :=
+  keys_parse _
+
+/-- "rows without a PEP ignored": dropping them from the stream changes nothing -/
+theorem rows_without_pep_ignored (xs : List Psm) :
+    parse (xs.filter (fun x => x.score.isSome)) = parse xs := foldl_ingest_filter xs []
+
+/-- order independence on the PSM stream: any permutation of the PSMs gives the same score for
+    every peptide -/
+theorem best_score_order_independent (xs ys : List Psm) (h : xs.Perm ys) (q : String) :
+    (get (parse xs) q).map (·.pep) = (get (parse ys) q).map (·.pep) := parse_score_perm h q
+
+/-- "any row order … several evidence files": any permutation of the files and of the rows inside
+    each file gives the same score for every peptide.  For Percolator input the flank rule is
+    decided on the first row of a file, so there the statement needs (and the code needs) that the
+    rows of a file agree on carrying flanks. -/
+theorem ingest_order_independent (T : Transforms) (mode : Mode) (pairs pairs' : List (DMap × List RawRow))
+    (h : Shuffled pairs pairs')
+    (hflank : isPerc mode.format = true → ∀ p ∈ pairs, ∃ b, ∀ r ∈ p.2, hasFlanks r.pep = b)
+    (q : String) :
+    (get (ingestPairs T mode pairs) q).map (·.pep) = (get (ingestPairs T mode pairs') q).map (·.pep) := by
+  obtain ⟨mid, hperm, hall'⟩ := h
+  have hall := rowsShuffled_forall₂ hall'
+  clear hall'
+  unfold ingestPairs
+  apply parse_score_perm
+  unfold allPsms
+  refine (hperm.flatMap_right _).trans ?_
+  apply flatMap_perm_of_forall₂
+  have hmid : ∀ a ∈ mid, a ∈ pairs := fun a ha => hperm.symm.subset ha
+  clear hperm
+  induction hall with
+  | nil => exact List.Forall₂.nil
+  | @cons a b l l' hab _ ih =>
+    refine List.Forall₂.cons ?_ (ih (fun x hx => hmid x (List.mem_cons_of_mem _ hx)))
+    obtain ⟨h1, h2⟩ := hab
+    show (filePsms T mode a.1 a.2).Perm (filePsms T mode b.1 b.2)
+    rw [← h1]
+    apply filePsms_perm T mode a.1 h2
+    cases hp : isPerc mode.format with
+    | false => rw [flankOf_not_perc hp, flankOf_not_perc hp]
+    | true =>
+      obtain ⟨bf, hb⟩ := hflank hp a (hmid a List.mem_cons_self)
+      by_cases hne : a.2 = []
+      · have : b.2 = [] := by rw [hne] at h2; exact List.Perm.eq_nil (h2.symm)
+        rw [hne, this]
+      · have hne' : b.2 ≠ [] := by
+          intro hb0; rw [hb0] at h2; exact hne (List.Perm.eq_nil h2)
+        rw [flankOf_uniform hp hb hne,
+          flankOf_uniform hp (fun r hr => hb r (h2.symm.subset hr)) hne']
+
+/-- "peptides unknown to the digest are skipped": when the method remaps, a stripped peptide that
+    no digest map knows never enters the result -/
+theorem unknown_peptides_skipped (T : Transforms) (fmt : Format) (pairs : List (DMap × List RawRow))
+    (q : String) (h : ∀ p ∈ pairs, digestLookup p.1 q = []) :
+    get (ingestPairs T { format := fmt, remap := true } pairs) q = none ∧
+    ∀ e ∈ ingestPairs T { format := fmt, remap := true } pairs, e.peptide ≠ q := by
+  have hno : ∀ x ∈ allPsms T { format := fmt, remap := true } pairs, x.key ≠ q := by
+    intro x hx hk
+    obtain ⟨p, hp, r, _, hrow⟩ := mem_allPsms hx
+    have := (rowPsm_some hrow).2.2.2.2 rfl
+    rw [hk] at this
+    exact this (h p hp)
+  constructor
+  · have hb := best_psm T { format := fmt, remap := true } pairs q
+    cases hg : get (ingestPairs T { format := fmt, remap := true } pairs) q with
+    | none => rfl
+    | some e =>
+      rw [hg] at hb
+      obtain ⟨_, pre, x, post, hxs, hxk, _⟩ := hb
+      exact absurd hxk (hno x (by rw [hxs]; simp))
+  · intro e he hq
+    obtain ⟨x, hx, hk, _⟩ := mem_parse he
+    exact hno x hx (hk.trans hq)
+
+/-- "A protein list containing a target loses its decoy entries": every entry of the result lists
+    the proteins of one row's source list — unchanged when that list is all-decoy (`is_decoy`),
+    otherwise without its `REV__…` / `rev_…` members — and never an empty list; hence each peptide
+    is all-decoy or lists no decoy at all. -/
+theorem target_list_loses_decoys (T : Transforms) (mode : Mode) (pairs : List (DMap × List RawRow)) :
+    ∀ e ∈ ingestPairs T mode pairs,
+      e.proteins ≠ [] ∧
+      (∃ p ∈ pairs, ∃ r ∈ p.2, ∃ src,
+        src = sourceProteins mode.remap p.1 (rowPeptide mode.format (flankOf mode.format p.2) r)
+                (rowProteins mode.format r) ∧
+        e.proteins = if isDecoy src then src else src.filter (fun x => !isDecoyId x)) ∧
+      (isDecoy e.proteins = true ∨ ∀ x ∈ e.proteins, isDecoyId x = false) := by
+  intro e he
+  obtain ⟨x, hx, _, _, hprots⟩ := mem_parse he
+  obtain ⟨p, hp, r, hr, hrow⟩ := mem_allPsms hx
+  obtain ⟨_, _, h3, h4, _⟩ := rowPsm_some hrow
+  rw [hprots] at h3 h4
+  refine ⟨h4, ⟨p, hp, r, hr, _, rfl, ?_⟩, ?_⟩
+  · rw [h3]; rfl
+  · rw [h3]
+    unfold removeDecoyProteinsFromTargetPeptides
+    split
+    · left; assumption
+    · right
+      intro y hy
+      have := (List.mem_filter.mp hy).2
+      simpa [isDecoyId] using this
+
+/-- "… so every reported group consists only of targets or only of decoys": if the decoy markers
+    occur in the identifiers only as prefixes, every peptide of the ingested list keeps proteins of
+    one kind (`REV__…`, `rev_…` or target), so every group whose members are linked by chains of
+    shared peptides of that list — which is what subset, rescued and pseudo-gene grouping produce
+    (properties C03 / C04: groups merge only along shared peptides) — is a decoy group (`is_decoy`)
+    or contains no decoy.  The composition with the executable grouping of `Model/C03.lean` is the
+    hypothesis `hconn`. -/
+theorem purity (T : Transforms) (mode : Mode) (pairs : List (DMap × List RawRow))
+    (groups : List (List String))
+    (hids : ∀ e ∈ ingestPairs T mode pairs, ∀ p ∈ e.proteins, MarkerOnlyAsPrefix p)
+    (hconn : ∀ g ∈ groups, ∀ a ∈ g, ∀ b ∈ g,
+      Relation.ReflTransGen (SharePeptide (ingestPairs T mode pairs)) a b) :
+    ∀ g ∈ groups, isDecoy g = true ∨ ∀ p ∈ g, isDecoyId p = false := by
+  have hh : ∀ e ∈ ingestPairs T mode pairs, ∀ a ∈ e.proteins, ∀ b ∈ e.proteins, kind a = kind b := by
+    intro e he
+    obtain ⟨x, hx, _, _, hprots⟩ := mem_parse he
+    obtain ⟨p, _, r, _, hrow⟩ := mem_allPsms hx
+    have h3 := (rowPsm_some hrow).2.2.1
+    rw [hprots] at h3
+    have hid := hids e he
+    rw [h3] at hid ⊢
+    exact removeDecoy_homogeneous _ hid
+  intro g hg
+  apply group_pure_of_kind
+  intro a ha b hb
+  exact kind_of_chain hh (hconn g hg a ha b hb)
+
+/-- `purity` instantiated with the executable groupings of property C03 (`Model/C03.lean`, tied to
+    `grouping.*.group_proteins` by C03's correspondence): the connectivity hypothesis is discharged by
+    C03's theorems (`subset_leader_contains` + `subset_partition`: every member shares a peptide with
+    the leading protein; `pseudogene_components`; `nogrouping_singletons`).  Rescued grouping (C04:
+    remnants of first-pass groups + groups merged along shared peptides below the cutoff) is covered
+    by `purity` through `hconn`, not instantiated here. -/
+theorem purity_subset_grouping (T : Transforms) (mode : Mode) (pairs : List (DMap × List RawRow))
+    (hids : ∀ e ∈ ingestPairs T mode pairs, ∀ p ∈ e.proteins, MarkerOnlyAsPrefix p) :
+    ∀ g ∈ C03.subsetGrouping (ingestPairs T mode pairs),
+      isDecoy g = true ∨ ∀ p ∈ g, isDecoyId p = false :=
+  purity T mode pairs _ hids (subsetGrouping_conn _ (result_keys_unique T mode pairs).1)
+
+theorem purity_pseudo_gene_grouping (T : Transforms) (mode : Mode) (pairs : List (DMap × List RawRow))
+    (hids : ∀ e ∈ ingestPairs T mode pairs, ∀ p ∈ e.proteins, MarkerOnlyAsPrefix p) :
+    ∀ g ∈ C03.pseudoGeneGrouping (ingestPairs T mode pairs),
+      isDecoy g = true ∨ ∀ p ∈ g, isDecoyId p = false :=
+  purity T mode pairs _ hids (pseudoGeneGrouping_conn _ (result_keys_unique T mode pairs).1)
+
+theorem purity_no_grouping (T : Transforms) (mode : Mode) (pairs : List (DMap × List RawRow))
+    (hids : ∀ e ∈ ingestPairs T mode pairs, ∀ p ∈ e.proteins, MarkerOnlyAsPrefix p) :
+    ∀ g ∈ C03.noGrouping (ingestPairs T mode pairs),
+      isDecoy g = true ∨ ∀ p ∈ g, isDecoyId p = false :=
+  purity T mode pairs _ hids (noGrouping_conn _)
+
+/-- "for every peptide sequence with modifications … stripped" / "duplicate peptides across
+    modifications": every spelling of a bare peptide with `( … )` tokens (nested MaxQuant tokens
+    included), `[ … ]` tokens and stray `)` strips to that bare peptide, so all spellings share one
+    dict key; a string without delimiters is left alone -/
+theorem modification_spelling_irrelevant (s s' b : List Char) (h : Spells s b) (h' : Spells s' b) :
+    removeModsL s = b ∧ removeModsL s = removeModsL s' ∧ (Plain b → removeModsL b = b) := by
+  refine ⟨removeModsL_spells h, by rw [removeModsL_spells h, removeModsL_spells h'], ?_⟩
+  intro hp
+  have h0 : removeModsL [] = [] := rfl
+  have := removeModsL_plain_append b [] hp
+  rw [h0] at this
+  simpa using this
+
+/-- "FragPipe PEP = 1 - probability": the executable transform is `1 - p + 1e-16`, strictly
+    decreasing in the probability, so the lowest PEP is the highest probability -/
+theorem fragpipe_pep_strictAnti (p p' : Rat) (h : p < p') :
+    exactT.fragpipe p' < exactT.fragpipe p ∧ exactT.fragpipe p = 1 - p + eps16 := by
+  refine ⟨?_, rfl⟩
+  show 1 - p' + eps16 < 1 - p + eps16
+  linarith
+
+/-- "Sage PEP = 10^posterior_error": the executable transform of an integral cell `n` is `10 ^ n`,
+    strictly increasing -/
+theorem sage_pep_strictMono (a b : Int) (h : a < b) :
+    exactT.sage (a : Rat) < exactT.sage (b : Rat) ∧ exactT.sage (a : Rat) = (10 : Rat) ^ a := by
+  have ha : exactT.sage (a : Rat) = (10 : Rat) ^ a := by
+    show pow10 ((a : Rat).num) = _
+    rw [Rat.num_intCast, pow10_eq_zpow]
+  have hb : exactT.sage (b : Rat) = (10 : Rat) ^ b := by
+    show pow10 ((b : Rat).num) = _
+    rw [Rat.num_intCast, pow10_eq_zpow]
+  refine ⟨?_, ha⟩
+  rw [ha, hb]
+  exact zpow_lt_zpow_right₀ (by norm_num) h
+
+/-- "DIA-NN decoy rows get the decoy prefix": every protein of such a row is `REV__` + the cell's
+    identifier -/
+theorem diann_decoy_rows_prefixed (r : RawRow) (h : r.decoy = true) :
+    rowProteins .diann r = (splitOn ";" (r.prot.headD "")).map (fun p => "REV__" ++ p) ∧
+    ∀ p ∈ rowProteins .diann r, isDecoyId p = true := by
+  have h1 : rowProteins .diann r = (splitOn ";" (r.prot.headD "")).map (fun p => "REV__" ++ p) := by
+    simp [rowProteins, h]
+  refine ⟨h1, ?_⟩
+  intro p hp
+  rw [h1, List.mem_map] at hp
+  obtain ⟨y, _, rfl⟩ := hp
+  have : strStartsWith ("REV__" ++ y) "REV__" = true := by
+    unfold strStartsWith
+    rw [String.toList_append]
+    exact List.isPrefixOf_iff_prefix.mpr (List.prefix_append _ _)
+  simp [isDecoyId, this]
+
+/-- every shipped method selects a mode the model implements; the non-razor ones realise exactly
+    these input-type / remap combinations (re-checked against `methods/*.toml` on every build) -/
+theorem shipped_modes :
+    (∀ m ∈ PgFdr.Generated.methods, m.scoreType ≠ none) ∧
+    ((PgFdr.Generated.methods.filter (fun m => m.sharedPeptides != some "razor")).map
+        (fun m => modeOfScoreType (m.scoreType.getD "") false)).eraseDups =
+      [ { format := .percNative, remap := true }, { format := .percNative, remap := false },
+        { format := .diann, remap := false }, { format := .maxquant, remap := true },
+        { format := .fragpipe, remap := false }, { format := .maxquant, remap := false },
+        { format := .sage, remap := false } ] := by
+  constructor <;> decide
+
+/-! ## Non-vacuity: concrete inputs meeting the hypotheses -/
+
+private def exRows : List RawRow :=
+  [ { pep := "_AAK_", mod := "", score := some (1/100), prot := ["T1;REV__T2"], decoy := false },
+    { pep := "_A(ox)AK_", mod := "", score := some (1/1000), prot := ["T1"], decoy := false },
+    { pep := "_AAK_", mod := "", score := some (1/1000), prot := ["T3"], decoy := false },
+    { pep := "_CCK_", mod := "", score := none, prot := ["T1"], decoy := false },
+    { pep := "_DDK_", mod := "", score := some (1/50), prot := ["REV__T4;REV__T5"], decoy := false } ]
+
+private def exMode : Mode := { format := .maxquant, remap := false }
+
+/-- the first PSM attaining 1/1000 (spelled with a modification) wins; the NaN row leaves no entry -/
+example : ingestFiles exactT exMode [] [exRows] =
+    [ { peptide := "AAK", pep := 1/1000, proteins := ["T1"] },
+      { peptide := "DDK", pep := 1/50, proteins := ["REV__T4", "REV__T5"] } ] := by decide +kernel
+
+/-- remapping with a digest that does not know `DDK`: the peptide is skipped (hypothesis of
+    `unknown_peptides_skipped`), and the target list of `AAK` loses its decoy -/
+example : ingestFiles exactT { format := .maxquant, remap := true }
+      [[("AAK", ["REV__T9", "T7"])]] [exRows] =
+    [ { peptide := "AAK", pep := 1/1000, proteins := ["T7"] } ] := by decide +kernel
+
+example : digestLookup [("AAK", ["REV__T9", "T7"])] "DDK" = [] := by decide
+
+/-- hypotheses of `purity` on the first example: identifiers carry the markers only as prefixes,
+    and the groups `[T1]`, `[REV__T4, REV__T5]` are linked through the peptides of the list -/
+example : ∀ e ∈ ingestPairs exactT exMode (pairUp false [] [exRows]), ∀ p ∈ e.proteins,
+    MarkerOnlyAsPrefix p := by decide +kernel
+
+example : Relation.ReflTransGen (SharePeptide (ingestPairs exactT exMode (pairUp false [] [exRows])))
+    "REV__T4" "REV__T5" := by
+  apply Relation.ReflTransGen.single
+  refine ⟨{ peptide := "DDK", pep := 1/50, proteins := ["REV__T4", "REV__T5"] }, ?_, by simp, by simp⟩
+  decide +kernel
+
+/-- the composed statement applies to the first example (its identifier hypothesis holds) -/
+example : ∀ g ∈ C03.subsetGrouping (ingestPairs exactT exMode (pairUp false [] [exRows])),
+    isDecoy g = true ∨ ∀ p ∈ g, isDecoyId p = false :=
+  purity_subset_grouping exactT exMode _ (by decide +kernel)
+
+/-- hypotheses of `ingest_order_independent`: reversing the rows is a shuffle -/
+example : Shuffled [(([] : DMap), exRows)] [([], exRows.reverse)] :=
+  ⟨[([], exRows)], List.Perm.refl _, RowsShuffled.cons rfl (List.reverse_perm _).symm RowsShuffled.nil⟩
+
+example : exactT.sage ((-3 : Int) : Rat) = 1 / 1000 := by decide +kernel
+
+/-- `AM(Oxidation (M))K` and `[42]AMK` spell `AMK` -/
+example : Spells "AM(Oxidation (M))K".toList "AMK".toList :=
+  .residue 'A' (by decide) (.residue 'M' (by decide)
+    (.paren "Oxidation (M".toList (by decide) (.close (.residue 'K' (by decide) .nil))))
+
+example : Spells "[42]AMK".toList "AMK".toList :=
+  .bracket "42".toList (by decide)
+    (.residue 'A' (by decide) (.residue 'M' (by decide) (.residue 'K' (by decide) .nil)))
+
 end PgFdr.C10
